@@ -113,14 +113,27 @@ def _case_1d(case, spl):
     interp = spl.SplineInterpolator1D(basis)
     datas = _data_vectors(rs, nb, xs)
     s_shared = spl.Spline1D(basis)
+    interp_q = spl.SplineInterpolator1D(basis)
+    interp_q.get_quadrature_coefficients()
+    datas.insert(2, ("zeros", np.zeros(nb)))          # exactly zero data into a spline that held something else before
     for di, (dname, u) in enumerate(datas):
         # every second data set goes into the SAME spline object (coefficients of the previous interpolation still in it)
-        s = s_shared if di % 2 else spl.Spline1D(basis)
-        interp.compute_interpolant(u.copy(), s)
+        s = s_shared if di >= 1 else spl.Spline1D(basis)
+        if di == 1:
+            interp.get_quadrature_coefficients()       # the other use of the same interpolator object, in between
+        u_given = np.ascontiguousarray(u, dtype=float).copy()
+        # odd data sets go through a second interpolator whose FIRST use was a quadrature request
+        (interp_q if di % 2 else interp).compute_interpolant(u_given, s)
+        if not np.array_equal(u_given, u):
+            return result(VIOL, cls=sorted(cls), events=ev, key="C08:input-data-modified", what="%s data=%s: compute_interpolant modified the data array it was given (max change %.3g)"
+                          % (name, dname, float(np.abs(u_given - u).max())), witness=dict(wit0, u=u.tolist()))
         c = s.coeffs.copy()
         scale = float(np.abs(u).max()) + 1e-300
         tol = C * rm.EPS * kappa * scale
         got = s.eval(xs.copy())
+        if dname == "zeros" and float(np.abs(c).max()) != 0.0:
+            return result(VIOL, cls=sorted(cls), events=ev, key="C08:zero-data-nonzero-spline", what="%s: interpolating exactly zero data into a re-used spline leaves non-zero coefficients (max %.3g)"
+                          % (name, float(np.abs(c).max())), witness=dict(wit0))
         got_ref = rm.spline_eval(T, c, p, xs)
         ev["interp_points_compared"] += 2 * nb
         cls.add("%s/%s/data-at-points" % (name, dname))
@@ -224,7 +237,12 @@ def _case_2d(case, spl):
             q2 = np.polynomial.Polynomial(rs.standard_normal(p2 + 1), domain=list(b2.domain), window=[-1, 1])
             U = np.outer(q1(x1), q2(x2))
         s = spl.Spline2D(b1, b2)
-        interp.compute_interpolant(U.copy(), s)
+        U_given = np.ascontiguousarray(U, dtype=float).copy()
+        interp.compute_interpolant(U_given, spl.Spline2D(b1, b2))       # first use of the caller's array ...
+        interp.compute_interpolant(U_given, s)                            # ... and the same array again
+        if not np.array_equal(U_given, U):
+            return result(VIOL, cls=sorted(cls), events=ev, key="C08:input-data-modified", what="%s data=%s: the 2-D interpolator modified the data matrix it was given (max change %.3g)"
+                          % (name, dname, float(np.abs(U_given - U).max())), witness=wit)
         Cf = s.coeffs.copy()
         scale = float(np.abs(U).max()) + 1e-300
         tol = C * rm.EPS * k1 * k2 * scale
